@@ -85,6 +85,52 @@ def src(node):
     return ast.unparse(node)
 
 
+def local_names(fn):
+    """names bound inside a function (parameters, assignment / loop / with / except targets), not descending into nested defs"""
+    out = {a.arg for a in fn.args.posonlyargs + fn.args.args + fn.args.kwonlyargs}
+    out |= {a.arg for a in (fn.args.vararg, fn.args.kwarg) if a is not None}
+    for st in walk_stmts(fn):
+        for n in ast.walk(st):
+            if isinstance(n, ast.Name) and isinstance(n.ctx, ast.Store):
+                out.add(n.id)
+            elif isinstance(n, ast.ExceptHandler) and n.name:
+                out.add(n.name)
+    return out
+
+
+def rename_locals(fn, mapping):
+    """A copy of function `fn` with its local variables renamed by `mapping` {old: new} (alpha-renaming: the renamed
+    function behaves identically).  Used to match statements textually whatever a local happens to be called.
+    SiteError if a new name would capture another local of the function."""
+    mapping = {a: b for a, b in mapping.items() if a != b}
+    if not mapping:
+        return fn
+    locs = local_names(fn)
+    if len(set(mapping.values())) != len(mapping):
+        raise SiteError(f"{fn.name}: two locals play the same role: {mapping}")
+    for a, b in mapping.items():
+        if a not in locs:
+            raise SiteError(f"{fn.name}: {a} is not a local")
+        if b in locs and b not in mapping:
+            raise SiteError(f"{fn.name}: cannot rename {a} to {b}: {b} is another local")
+    import copy
+    fn2 = copy.deepcopy(fn)
+
+    class R(ast.NodeTransformer):
+        def visit_Name(self, n):
+            if n.id in mapping:
+                n.id = mapping[n.id]
+            return n
+
+        def visit_FunctionDef(self, n):
+            return n if n is not fn2 else self.generic_visit(n)
+
+        def visit_Lambda(self, n):
+            return n
+    R().visit(fn2)
+    return fn2
+
+
 def class_assign(rel, cls, name):
     c = find_def(rel, cls)
     for st in c.body:
@@ -232,8 +278,20 @@ class Tr:
         op = " && " if isinstance(n.op, ast.And) else " || "
         return ("(" + op.join(self.truth(v) for v in n.values) + ")", "bool")
 
+    # `not (a OP b)` is the same decision as `a OP' b` for every operand type this translator accepts
+    # (ints, strings, enums, bools, lists, optionals: total orders, no NaN): translate the two spellings to the
+    # same Lean term, so that `a != b` <-> `not a == b` (a harmless rewrite) does not change the generated text.
+    _NEGATED = {ast.Eq: ast.NotEq, ast.NotEq: ast.Eq, ast.Lt: ast.GtE, ast.GtE: ast.Lt, ast.Gt: ast.LtE,
+                ast.LtE: ast.Gt, ast.In: ast.NotIn, ast.NotIn: ast.In, ast.Is: ast.IsNot, ast.IsNot: ast.Is}
+
     def t_UnaryOp(self, n):
         if isinstance(n.op, ast.Not):
+            inner = n.operand
+            if (isinstance(inner, ast.Compare) and len(inner.ops) == 1 and src(inner) not in self.env
+                    and type(inner.ops[0]) in self._NEGATED):
+                flipped = ast.Compare(left=inner.left, ops=[self._NEGATED[type(inner.ops[0])]()],
+                                      comparators=inner.comparators)
+                return self.tr(ast.copy_location(flipped, inner))
             return (f"(!{self.truth(n.operand)})", "bool")
         if isinstance(n.op, ast.USub):
             t, ty = self.tr(n.operand)
